@@ -505,15 +505,15 @@ def analyse_run(prog, F, W, run):
                 if mw == 'G' and kw == 'G':
                     F.add('R05b', d, run, whatb, 'ok', 'get(G-map, G-edge)')
                 else:
-                    F.add('R05b', d, run, whatb, 'violation', 'weight read with map world %s and key world %s' % (mw, kw),
-                          key='R05b|%s|get' % run.g)
+                    F.add('R05b', d, run, whatb, 'violation' if mw in ('G', 'S', 'T') and kw in ('G', 'S', 'T') else 'undecided',
+                          'weight read with map world %s and key world %s' % (mw, kw), key='R05b|%s|get' % run.g)
             elif t.k == 'CXXOperatorCallExpr' and t.op == '[]' and len(t.c) == 3:
                 mw, kw = atom(W.world(t.c[1])), atom(W.world(t.c[2]))
                 if mw == 'G' and kw == 'G':
                     F.add('R05b', d, run, whatb, 'ok', 'G-map[G-edge]')
                 else:
-                    F.add('R05b', d, run, whatb, 'violation', 'weight read with map world %s and key world %s' % (mw, kw),
-                          key='R05b|%s|index' % run.g)
+                    F.add('R05b', d, run, whatb, 'violation' if mw in ('G', 'S', 'T') and kw in ('G', 'S', 'T') else 'undecided',
+                          'weight read with map world %s and key world %s' % (mw, kw), key='R05b|%s|index' % run.g)
             elif t.k in ex.CALL_KINDS and t.callee and (t.callee['g'].startswith(BUILDER) or
                                                          FUNCTOR_RE.match(t.callee['g']) or EXACT_ENTRY_RE.match(t.callee['g'])):
                 if t.callee['g'].startswith(BUILDER):
@@ -563,6 +563,17 @@ def analyse_construct(prog, F, W, fn):
               and atom(W.world(n.object_arg())) == 'G']
     what_anchor = 'spanner construction loop'
     if not add_edges:
+        # delegated to a helper of the class?
+        helpers = []
+        for n in nodes:
+            if n.k in ('CXXMemberCallExpr', 'CallExpr') and n.callee and n.callee.get('in_repo') and n.callee_id is not None:
+                hf = prog.fn_of_fref(n.callee_id)
+                if hf is not None and hf.body is not None and any(m.k == 'CallExpr' and m.callee and m.callee['g'] == 'boost::add_edge' for m in hf.walk()):
+                    helpers.append(n)
+        if helpers:
+            F.add('R15a', helpers[0], fn, 'every scanned edge is either retained or dropped', 'undecided',
+                  'the edge is added to the internal graph inside the helper `%s`: the construction is outside the recognised shape' % helpers[0].callee['name'])
+            return
         F.add('R15a', fn.body, fn, 'every scanned edge is either retained or dropped', 'violation',
               'construct_spanner never adds an edge to the internal graph', key='R15a|%s|no-add-edge' % fn.g)
         return
@@ -878,6 +889,7 @@ def analyse_construct(prog, F, W, fn):
         pn = cfg.pos_of(n)
         weighted = False
         recorded = False
+        custom_record = []
         wdetail = ''
         if len(n.args()) == 4:
             prop = n.args()[2]
@@ -911,6 +923,9 @@ def analyse_construct(prog, F, W, fn):
                     elif atom(lw) == 'S' and is_g_weight_read(W, ops[1], cur_edge_vars) and same_path:
                         weighted = True
                         wdetail = 'W_S[e_S] = W_G[e]'
+            if m.k in ('CXXMemberCallExpr', 'CallExpr') and m.callee and m.callee.get('in_repo') and evar is not None and same_path and \
+                    any(ex.refs_var(a, evar) for a in m.args()) and any(any(ex.refs_var(a, cv) for cv in cur_edge_vars) for a in m.args()):
+                custom_record.append(m)
             if m.k == 'CXXMemberCallExpr' and m.callee['name'] in ('insert', 'emplace') and evar is not None:
                 ow = W.world(m.object_arg())
                 if isinstance(ow, tuple) and ow[0] == 'kv' and any(ex.refs_var(a, evar) for a in m.args()) and \
@@ -932,6 +947,8 @@ def analyse_construct(prog, F, W, fn):
                   key='R05c|%s|unweighted' % fn.g)
         if recorded:
             F.add('R05d', n, fn, whatt, 'ok', 'table[e_S] = e')
+        elif custom_record:
+            F.add('R05d', n, fn, whatt, 'undecided', 'the pair (e_S, e) is handed to the repo function `%s` (a table outside the idiom list)' % custom_record[0].callee['g'])
         else:
             F.add('R05d', n, fn, whatt, 'violation', 'no insertion (e_S -> e) for the edge just added on the same path',
                   key='R05d|%s|unrecorded' % fn.g)
